@@ -15,7 +15,7 @@ ID = "C11"
 LEVEL = "exploration"
 SHARDS = {"quick": 8, "thorough": 16}
 RULE = ("a raw 0xC0 body (assembled by the model's vendor-layout encoder plus raw byte overrides) is reported to a fresh "
-        "AirConditioner, either through refresh() against the model device or through Response.construct + _update_state; the "
+        "AirConditioner, either through refresh() against the model device or through Response.construct + _update_state, or twice to the same client with local attribute changes in between; the "
         "public attributes must equal the vendor-layout reading of the body: power, mode (members 1..6), setpoint (alternate code "
         "c!=0 => c+12 else primary+16, + half bit), fan (member or raw 0..127), swing (canonical nibbles), turbo, aux mode, eco, "
         "purifier, sleep, Fahrenheit, follow-me, filter, display ((b14>>4)&7 != 7), target humidity iff length>=20 else None, "
@@ -73,6 +73,15 @@ def check_case(case: dict):
             if dev.version == 3:
                 await ac.authenticate(dev.token, dev.key)
             await ac.refresh()
+            if via == "refresh2":
+                # history: the same state was already reported once, then the user changed attributes locally
+                # (without applying them); the next refresh must report the device's state again
+                other = {"power": not ac.power_state, "mode": 1 + (int(ac.operational_mode) % 6), "target": 17.0 if ac.target_temperature != 17.0 else 29.5,
+                         "fan": 41, "swing": 0xF if int(ac.swing_mode) != 0xF else 0, "eco": not ac.eco, "turbo": not ac.turbo, "sleep": not ac.sleep,
+                         "fahrenheit": not ac.fahrenheit, "freeze": not ac.freeze_protection, "follow_me": not ac.follow_me, "purifier": not ac.purifier,
+                         "humidity": 77, "aux": (int(ac.aux_mode) + 1) % 3, "beep": True}
+                acutil.set_attrs(ac, other)
+                await ac.refresh()
             res["got"] = acutil.read_attrs(ac)
             ac._lan._disconnect()
 
@@ -178,7 +187,7 @@ def run(ctx) -> None:
         ctx.check(case, lambda c: _run_one(ctx, c))
         # the same body through the full stack: all of them in thorough, every 6th in quick
         if (not ctx.quick) or i % 6 == 0:
-            c2 = dict(case, via="refresh", version=2 if i % 3 else 3)
+            c2 = dict(case, via="refresh" if i % 4 else "refresh2", version=2 if i % 3 else 3)
             ctx.check(c2, lambda c: _run_one(ctx, c))
     ctx.sweep("temperature / setpoint-code / per-byte / length grids", len(cases), True)
 
@@ -190,5 +199,5 @@ def run(ctx) -> None:
     overrides = st.dictionaries(st.sampled_from([1, 2, 4, 5, 6, 7, 8, 9, 10, 13, 14, 15, 16, 17, 18, 19, 20, 21, 22, 23]), st.integers(0, 255), max_size=6) \
         .map(lambda d: {k: (v if k != 15 else ((v & 0xF) % 10) | (((v >> 4) % 10) << 4)) for k, v in d.items()})
     rc_cases = st.builds(mk, gens.device_states(), st.integers(16, 40), overrides, st.sampled_from(["crc", "sum"]), st.sampled_from([2, 3]),
-                         st.sampled_from(["decoder", "refresh"]), st.sampled_from([2, 3]))
+                         st.sampled_from(["decoder", "refresh", "refresh2"]), st.sampled_from([2, 3]))
     ctx.hyp("random", rc_cases, lambda c: _run_one(ctx, c), ctx.n(3000, 320000))
